@@ -4,7 +4,9 @@
    [content]: the tree without addresses; [teq]/[ceq]: equality as coded / as documented).
    Gen/T_C12.v is regenerated from the source of copy_self & co. on every run. *)
 From Coq Require Import List NArith ZArith Bool Arith Permutation.
-From BS Require Import Base.Sexp Base.Types Spec.Tree Model.Copy Spec.CopySpec Proofs.CopyProofs Gen.T_C12.
+From BS Require Import Base.Sexp Base.Types Base.Lit Gen.Tables Gen.T_C05 Model.Attrs Model.SmartQuotes Model.Render Model.Reparse
+     Model.Heap Model.Edit Model.EditOps Model.Build Spec.BuildSpec Spec.RoundTrip Proofs.EditRep.
+From BS Require Import Spec.Tree Model.Copy Spec.CopySpec Proofs.CopyProofs Proofs.CopyCompose Gen.T_C12.
 Import ListNotations.
 Open Scope nat_scope.
 
@@ -198,13 +200,86 @@ Print Assumptions C12_copy_keeps_is_xml.
 (* 5. pickling a document (partial: rendering, parsing and the builder are parameters; that
       parse (render t) equals t up to the re-parse normalisations is C05's)                  *)
 (* ---------------------------------------------------------------------------------------- *)
-Theorem C12_pickle_is_reparse_partial : forall (B O M T : Type) (render : T -> M) (feed : B -> O -> M -> T)
+Theorem C12_pickle_is_reparse_partial : forall (B O M T T' : Type) (render : T -> M) (feed : B -> O -> M -> T')
   (d : document B O T),
-  setstate B O M T feed (getstate B O M T render d) =
-  mkdoc B O T (d_builder _ _ _ d) (d_other _ _ _ d)
-        (feed (d_builder _ _ _ d) (d_other _ _ _ d) (render (d_tree _ _ _ d))).
+  setstate feed (getstate render d) =
+  mkdoc (d_builder d) (d_other d) (feed (d_builder d) (d_other d) (render (d_tree d))).
 Proof. exact @unpickle_is_reparse. Qed.
 Print Assumptions C12_pickle_is_reparse_partial.
+
+(* The pickle clause, composed with C05 and C03.  __getstate__ stores self.decode() — indent_level=None and
+   formatter="minimal" by default (obligation C12_getstate_renders_minimal below; 'minimal' = substitute_xml with
+   "/" before the ">" of a void element: C05_formatter_registry) — and __setstate__ re-parses it with the pickled
+   builder.  The pickled builder is what the re-parse depends on: html.parser's reading configuration and the tree
+   builder's construction configuration; the markup is the token sequence whose spelling decode() returns; the
+   re-parse is bs4's reading of those tokens (Model/Reparse.v) folded by the documented construction rules
+   (Spec/BuildSpec.v spec_run, which the builder's state machine refines: C03_build_refines).  For EVERY
+   representable document: the unpickled document's tree is [norm] of the original's — the original up to the
+   re-parse normalisations of C05 (adjacent text merged, whitespace-only runs collapsed, newline after a doctype) —
+   and the builder configuration and every other attribute of the object survive.  Outside the proof, as in C05:
+   that the standard-library tokenizer cuts the text back into these tokens (measured on every run). *)
+Theorem C12_pickle_roundtrip : forall (O : Type) enc f (rc : rcfg) (cfg : bconfig) (o : O) (t : node),
+  f_subst f = Some subst_xml -> f_void f <> [] ->
+  memS (c_root cfg) (c_pw cfg) = false -> assocS (c_root cfg) (c_containers cfg) = None ->
+  representable_top f rc cfg t = true ->
+  let d := mkdoc (rc, cfg) o t in
+  let k := getstate (tokens_of enc f) d in
+  let u := setstate pickle_feed k in
+  d_tree u = flat_tree cfg (norm enc f cfg t) /\
+  d_builder u = (rc, cfg) /\ d_other u = o /\
+  decode enc f None t = List.concat (map spell (k_markup k)).
+Proof. exact pickle_roundtrip. Qed.
+Print Assumptions C12_pickle_roundtrip.
+
+(* for the HTML builder and the shipped HTML 'minimal' formatter nothing is assumed but representability *)
+Theorem C12_pickle_roundtrip_html : forall (O : Type) enc check (o : O) (t : node),
+  representable_top html_minimal (html_rcfg check) html_bcfg t = true ->
+  let d := mkdoc (html_rcfg check, html_bcfg) o t in
+  let u := setstate pickle_feed (getstate (tokens_of enc html_minimal) d) in
+  d_tree u = flat_tree html_bcfg (norm enc html_minimal html_bcfg t) /\
+  d_builder u = (html_rcfg check, html_bcfg) /\ d_other u = o.
+Proof. exact pickle_roundtrip_html. Qed.
+Print Assumptions C12_pickle_roundtrip_html.
+
+(* ---------------------------------------------------------------------------------------- *)
+(* 5b. the six links of a copy (composed with C01 / C02)                                    *)
+(* ---------------------------------------------------------------------------------------- *)
+(* The same loop on the six-link heap of Model/Heap.v — a clone is a new element of the same kind and label, hung
+   under the clone on top of the tag stack by the REAL append() (Model/Edit.v op_append = insert(len(contents), .)
+   = _insert with all its pointer writes).  From ANY consistent six-link state s that the two-store state cs mirrors
+   (same allocation counter, same .parent / .contents / tag-ness on live elements), for EVERY tree t of cs whose
+   elements are live in s: the six-link copy never fails, ends in a consistent state s' that the two-store result
+   mirrors, and in s' the copy t' (the tree of C12_copy_isomorphic_detached_fresh) is a tree of the forest with ALL
+   SIX links right: [rep1 (hp s') t' b] — parent / contents, sibling chain, element chain over its pre-order closed
+   at both ends (b = true) unless the copied element is a BeautifulSoup object, whose root may stand outside its
+   chain as C01 allows.  Hence every navigation view of a copy is the pre-order walk of its child lists
+   (C01_next_elements ... C01_descendants apply to [rep1]). *)
+Theorem C12_copy_well_linked : forall fuel cs t (s : Edit.st),
+  wf cs t -> closed_par cs -> (forall x, In x (pre t) -> soup_ok cs x) -> List.length (pre t) <= fuel ->
+  is_tagb cs (rid t) = true ->
+  consistent s -> sim cs s -> (forall x, In x (pre t) -> live s x) ->
+  (forall x, In x (pres (tkids t)) -> kind (hp s x) <> KSoup) ->
+  exists cs' t' s',
+    deepcopy fuel cs (rid t) = Some (cs', rid t') /\ copy_post fuel cs t cs' t' /\
+    deepcopy6 s (es_loop cs (descendants fuel cs (rid t)) []) (rid t) = Some (s', rid t') /\
+    consistent s' /\ sim cs' s' /\
+    exists b, rep1 (hp s') t' b /\ (kind (hp s (rid t)) <> KSoup -> b = true).
+Proof. exact copy_well_linked. Qed.
+Print Assumptions C12_copy_well_linked.
+
+(* one step of that loop: allocating the clone and appending it with the real append() is total, keeps the state
+   consistent, and does to .parent / .contents exactly the two writes of Model/Copy.v's append_child *)
+Theorem C12_append_of_new_element : forall (s : Edit.st) d k t,
+  consistent s -> live s d -> is_tag (hp s) d = true -> k <> KSoup ->
+  let s1 := fst (alloc s k t) in let x := nxt s in
+  exists s2, op_append s1 d (AEl x) = Ok s2 /\ consistent s2 /\ nxt s2 = S (nxt s) /\
+    (forall y, y < nxt s -> EditFrames.meta (hp s2 y) = EditFrames.meta (hp s y)) /\
+    EditFrames.meta (hp s2 x) = (k, t, false) /\
+    kids (hp s2 d) = kids (hp s d) ++ [x] /\ par (hp s2 x) = Some d /\ kids (hp s2 x) = [] /\
+    (forall q, live s q -> q <> d -> kids (hp s2 q) = kids (hp s q)) /\
+    (forall y, live s y -> par (hp s2 y) = par (hp s y)).
+Proof. exact link_step. Qed.
+Print Assumptions C12_append_of_new_element.
 
 (* ---------------------------------------------------------------------------------------- *)
 (* 6. obligations over the source of the working tree (Gen/T_C12.v)                         *)
@@ -263,3 +338,11 @@ Theorem C12_getstate_setstate_shape :
   c12_setstate_tail = ["self.builder.soup = self"; "self.reset()"; "self._feed()"].
 Proof. repeat split; reflexivity. Qed.
 Print Assumptions C12_getstate_setstate_shape.
+
+(* self.decode() in __getstate__ is the plain (not pretty-printed) rendering under the 'minimal' formatter *)
+Theorem C12_getstate_renders_minimal :
+  assoc_s "markup" c12_getstate_assigned = Some "self.decode()" /\
+  c12_decode_defaults = [("BeautifulSoup.decode.indent_level", "None"); ("BeautifulSoup.decode.formatter", "'minimal'");
+                         ("Tag.decode.indent_level", "None"); ("Tag.decode.formatter", "'minimal'")].
+Proof. split; reflexivity. Qed.
+Print Assumptions C12_getstate_renders_minimal.
